@@ -292,7 +292,14 @@ def main(tier, seed):
         limit = budget - 1 if hw == "nv" else budget
         for pre in prefixes(limit, 3):
             specs.append({"hw": hw, "budget": budget, "transpile": tr, "depth": deep_depth, "prefix": pre, "alphabet": alpha})
-    rep.bounds = [f"all histories of {deep_depth} operations over the alphabet {alpha} (NV configurations: relocation chains with gaps in the id space)",
+    # in-place measurements (the handle stays alive after the NV relocation) followed by further allocations
+    alpha2 = ["new", "meas_inplace", "meas", "flush"]
+    deep2 = 6 if tier == "thorough" else 5
+    for hw, budget, tr in (("nv", 4, False), ("nv", 3, False), ("nv", 4, True)) if tier == "thorough" else (("nv", 4, False),):
+        for pre in prefixes(budget - 1, 2):
+            specs.append({"hw": hw, "budget": budget, "transpile": tr, "depth": deep2, "prefix": pre, "alphabet": alpha2})
+    rep.bounds = [f"all histories of {deep2} operations over the alphabet {alpha2} (NV: relocation for an in-place measurement, then further allocations)",
+                  f"all histories of {deep_depth} operations over the alphabet {alpha} (NV configurations: relocation chains with gaps in the id space)",
                   f"all histories of {depth} operations (new qubit, H, reset, measure in place / destructively, free, flush, create_keep(1..2), "
                   "recv_keep(1..2), create_keep / recv_keep with min_fidelity_all_at_end (retry loop, symbolic duration), sequential create_keep with post routine, create_context, sequential recv_context) with a final flush, "
                   f"for qubit budgets {list(budgets)} (the statement's 1..5: budgets not listed are outside this tier), generic hardware, NV hardware config, NV config + NVSubroutineTranspiler",
